@@ -2,6 +2,8 @@ package vh
 
 import "pgregory.net/rapid"
 
-func smActions(kind string, actions map[string]func(*rapid.T)) map[string]func(*rapid.T) { return actions }
+func smActions(kind string, actions map[string]func(*rapid.T)) map[string]func(*rapid.T) {
+	return actions
+}
 
 func childMain() {}
